@@ -14,6 +14,7 @@ func init() {
 	register(&Prop{ID: "C14", Run: runC14,
 		Technique: "static analysis: dominance / must-pass-through of the graph checks over graph admission and over every effect of Agent.Run; role-based conformance of the cycle test to the in-degree elimination named in the property's anchors (degree table, work list, inverse adjacency maps, verdict) on go/ssa",
 		Decided: []string{
+			"a step's depends list is stored as the definition has it (C14.depends-verbatim)",
 			"both graph constructors return a graph only when the edge/cycle setup returned nil; that setup returns the lookup error for an unknown dependency name (C01.edges) and returns nil only when the cycle test is false (C14.refusal-propagates)",
 			"Agent.Run reaches precondition evaluation, the already-running probe, history, socket and Schedule/dryRun only on the success edge of graph construction, whose error is returned (C14.graph-first)",
 			"while the cycle test is an in-degree elimination (local degree table drained through a work list): degrees are initialised with len(adjacency[key]); all and only degree-zero nodes of the whole graph seed the work list; each iteration pops exactly the element it reads and runs until the list is empty; every neighbour adjacency'[popped] (the inverse map, roles read off addEdge) is lowered by exactly one and queued exactly when that makes it zero; the verdict is given after the list is drained: cycle iff a non-zero degree remains (or an equivalent count of node events) (C14.kahn)",
@@ -127,6 +128,7 @@ func runC14(e *Env) {
 
 	c14Kahn(e, hasCycle, e.graphRoles().AddEdge)
 	c14GraphFirst(e)
+	cFieldVerbatim(e, "C14.depends-verbatim", "a step's depends list reaches the graph check as it was written", "internal/dag", "internal/dag.Step", "Depends", "Depends", "the dependency list is rewritten between the file and the graph check: an entry dropped here (a self-dependency, a name that does not exist) is never seen by the edge set-up and the cycle test, and a DAG the property refuses is admitted", 1)
 }
 
 func c14GraphFirst(e *Env) {
